@@ -9,7 +9,7 @@ ID = "C04"
 LEVEL = "exploration"
 TECHNIQUE = "deviation-bounded exhaustive enumeration of standards-conformant responses produced by independent encoders (all field values over their alphabets, descriptor counts 0..3, with/without trailing buffer space); each decoded dictionary compared key by key with the encoded values"
 RULE = ("per parsed format, responses built by vf/spec/responses.py: every field over its whole alphabet one at a time from the all-zero and the "
-        "all-ones baseline (quick), pairs of fields too (thorough); descriptor lists with 0..3 entries (x 0..3 inner entries), each with and "
+        "all-ones baseline (quick), pairs of fields too (thorough); descriptor lists with 0..3 entries (x 0..3 inner entries) and with 10,11,12,16,17,32,33 entries (count boundaries), each with and "
         "without trailing zero buffer space; designators of 9 kinds x NAA 2/3/5/6 x EUI-64 8/12/16; TransportIDs of 5 protocols; mode data with "
         "0/1/2 block descriptors x 4 pages; READ CD over 15 sector layouts x C2 {0,1,2} x sub-channel {0,2,4} x 0..2 sectors. "
         "Non-trivial = any non-zero value or at least one descriptor; distinct = distinct response byte strings.")
@@ -98,6 +98,7 @@ def field_points(fields, k, fixed=()):
 
 
 BLOB_A = bytes(range(0x41, 0x41 + 20))
+BIG_COUNTS = (10, 11, 12, 16, 17, 32, 33)
 TIDS = [
     {"protocol_id": 0, "n_port_name": bytes(range(1, 9))},
     {"protocol_id": 3, "eui64_name": bytes(range(0x11, 0x19))},
@@ -330,7 +331,7 @@ def readcd_response(est, mcsb, c2, sc, lba, tl):
 
 def run_case(case, obs=None):
     if case[0] == "aba":
-        return run_aba(case[1], case[2])
+        return run_aba_star(case[1], case[2] if case[2] and isinstance(case[2][0], list) else [case[2]])
     fmt, data, exp, dec = build(case)
     out = []
     try:
@@ -357,6 +358,7 @@ def _unjson(x):
 
 
 # ---------------------------------------------------------------------------------------------------------
+ABA_MAX = 40
 MAXTASKS = 1     # every partition in a freshly forked worker (the ABA partitions need a process in which nothing was decoded yet)
 
 ABA_GROUPS = {
@@ -407,30 +409,44 @@ def aba_representatives(group, per_tag=2):
 
 
 def run_aba(case_a, case_b):
-    """decode A, decode B, decode A again: the two results for A must be identical in every key (nothing may depend on what was
-    decoded in between), and the first result object must not have changed"""
+    """decode A, decode B, decode A again (see run_aba_star); kept for replaying a single pair"""
+    return run_aba_star(case_a, [case_b])
+
+
+def run_aba_star(case_a, others):
+    """In a process where nothing else was decoded yet: decode A (reference), then for every B: decode B, decode A again.
+    Every later result for A must be identical to the reference in every key (nothing may depend on what was decoded in between),
+    and the reference object itself must not change.  Returns violations (first divergence per B)."""
     fa, da, ea, deca = build(case_a)
-    fb, db, eb, decb = build(case_b)
     out = []
     try:
         r1 = deca(bytearray(da))
-        f1 = freeze(r1)
-        decb(bytearray(db))
-        r2 = deca(bytearray(da))
     except Exception as e:   # noqa: BLE001
-        return [("aba/%s/raises" % fa, "decoding %s, %s, %s in sequence raised %s: %s" % (fa, fb, fa, type(e).__name__, e))]
-    if freeze(r1) != f1:
-        out.append(("aba/%s/earlier_result_changed" % fa, "the result of decoding a %s response changed after a %s response was decoded" % (fa, fb)))
-    if freeze(r2) != f1:
-        k1 = set(r1) if isinstance(r1, dict) else set()
-        k2 = set(r2) if isinstance(r2, dict) else set()
-        out.append(("aba/%s/depends_on_history" % fa, "decoding the same %s response before and after a %s response gives different results "
-                    "(keys only before: %r, only after: %r)" % (fa, fb, sorted(map(str, k1 - k2))[:6], sorted(map(str, k2 - k1))[:6])))
+        return [("aba/%s/raises" % fa, "decoding %s raised %s: %s" % (fa, type(e).__name__, e))]
+    f1 = freeze(r1)
+    for case_b in others:
+        fb, db, eb, decb = build(case_b)
+        try:
+            decb(bytearray(db))
+            r2 = deca(bytearray(da))
+        except Exception as e:   # noqa: BLE001
+            out.append(("aba/%s/raises" % fa, "decoding %s, %s, %s in sequence raised %s: %s" % (fa, fb, fa, type(e).__name__, e)))
+            break
+        if freeze(r1) != f1:
+            out.append(("aba/%s/earlier_result_changed" % fa, "the result of decoding a %s response changed after a %s response was decoded" % (fa, fb)))
+            break
+        if freeze(r2) != f1:
+            k1 = set(r1) if isinstance(r1, dict) else set()
+            k2 = set(r2) if isinstance(r2, dict) else set()
+            out.append(("aba/%s/depends_on_history" % fa, "decoding the same %s response before and after a %s response gives different results "
+                        "(keys only before: %r, only after: %r)" % (fa, fb, sorted(map(str, k1 - k2))[:6], sorted(map(str, k2 - k1))[:6])))
+            break
     return out
 
 
 def partitions(tier):
-    return [["aba", g] for g in ABA_GROUPS] + [[n] for n in ("inquiry_std", "vpd86", "vpdb0", "vpdb1", "vpdb2", "vpdb3", "vpd_lists", "vpd83", "vpd89", "mode6", "mode10",
+    # one partition (= one freshly forked process) per (group, reference response A)
+    return [["aba", g, i] for g in ABA_GROUPS for i in range(ABA_MAX)] + [[n] for n in ("inquiry_std", "vpd86", "vpdb0", "vpdb1", "vpdb2", "vpdb3", "vpd_lists", "vpd83", "vpd89", "mode6", "mode10",
                           "readcap", "getlbastatus", "reportluns", "rtpg", "reportpriority", "res", "prin", "discinfo", "readcd")]
 
 
@@ -463,6 +479,8 @@ def gen(part, tier):
         yield ["vpd83", [], 0]
         yield ["vpd83", [], 20]
         yield ["vpd83", list(range(n)), 3]
+        for cnt in BIG_COUNTS[:5]:
+            yield ["vpd83", [(i * 5) % n for i in range(cnt)], 0]
         if k > 1:
             for t in itertools.permutations(range(0, n, 2), 3):
                 yield ["vpd83", list(t), 5]
@@ -495,6 +513,8 @@ def gen(part, tier):
         for n in range(0, 5):
             for tail in (0, 8, 16):
                 yield ["getlbastatus", base[:n], tail]
+        for n in BIG_COUNTS:
+            yield ["getlbastatus", [{"lba": 0x1000 * i, "num_blocks": 0x10 + i, "p_status": i % 3} for i in range(n)], 0]
     elif name == "reportluns":
         luns = [0, 0x0001000000000000, 0x4001000000000000, 0xC101000000000000, 0xFFFFFFFFFFFFFFFF]
         for n in range(0, 6):
@@ -503,12 +523,18 @@ def gen(part, tier):
         for v in bits.alphabet(64):
             yield ["reportluns", [v], 0]
             yield ["reportluns", [1, v], 0]
+        for n in BIG_COUNTS:          # count boundaries (two-digit indices, byte counts around 256)
+            yield ["reportluns", [(i << 48) | (0x100 + i) for i in range(n)], 0]
+            yield ["reportluns", [(i << 48) | (0x100 + i) for i in range(n)], 8]
     elif name == "rtpg":
         for vals in field_points(R.TPG_DESC, k, fixed=("target_port_count",)):
             yield ["rtpg", [[vals, [1]]], 0, 0, 0]
         g = [{"asymmetric_access_state": 0, "target_port_group": 1, "pref": 1}, {"asymmetric_access_state": 2, "target_port_group": 0x102},
              {"asymmetric_access_state": 0xF, "target_port_group": 0xFFFF, "status_code": 2}]
         ports = [[], [1], [1, 2], [0x8001, 2, 0xFFFF]]
+        for n in BIG_COUNTS:
+            yield ["rtpg", [[g[0], [0x100 + i for i in range(n)]]], 0, 0, 0]
+            yield ["rtpg", [[dict(g[i % 3], target_port_group=0x200 + i), [i + 1]] for i in range(n)], 1, 5, 0]
         for ng in range(0, 4):
             for pc in itertools.product(range(4), repeat=ng):
                 for ext in (0, 1):
@@ -517,6 +543,8 @@ def gen(part, tier):
     elif name == "reportpriority":
         for vals in field_points(R.PRIORITY_DESC, max(k, 2)):
             yield ["reportpriority", [[vals, 0]], 0]
+        for n in BIG_COUNTS:
+            yield ["reportpriority", [[{"current_priority": i & 0xF, "rtpi": 0x300 + i}, i % len(TIDS)] for i in range(n)], 0]
         for n in range(0, 4):
             for ts in itertools.product(range(len(TIDS)), repeat=n):
                 for tail in (0, 8):
@@ -524,6 +552,9 @@ def gen(part, tier):
     elif name == "res":
         for vals in field_points(R.ES_DESC, k):
             yield ["res", 1, 1, [[2, 0, 0, [vals]]], 0]
+        for n in BIG_COUNTS:
+            yield ["res", 0x10, n, [[2, 0, 0, [{"element_address": 0x10 + i, "full": i & 1, "access": 1, "source_storage_element_address": 0x500 + i}
+                                               for i in range(n)]]], 0]
         for et, extra in ((1, {}), (2, {"access": 1}), (3, {"oir": 1, "cmc": 1, "inenab": 1, "exenab": 1, "access": 1, "impexp": 1}), (4, {"access": 1})):
             for pv in (0, 1):
                 for av in (0, 1):
@@ -544,6 +575,10 @@ def gen(part, tier):
         for n in range(0, 4):
             for tail in (0, 8):
                 yield ["prkeys", 0x01020304, [0x1122334455667788, 1, 0xFFFFFFFFFFFFFFFF][:n], tail]
+        for n in BIG_COUNTS:
+            yield ["prkeys", 9, [0xA000 + i for i in range(n)], 0]
+            yield ["prfull", 9, [[{"reservation_key": 0xB000 + i, "r_holder": i & 1, "scope": 0, "type": 5, "relative_target_port_id": i}, i % len(TIDS)]
+                                 for i in range(n)], 0]
         for v in bits.alphabet(64):
             yield ["prkeys", 7, [v], 0]
             yield ["prres", 7, {"reservation_key": v, "scope": 0, "type": 5}, 0]
@@ -591,21 +626,22 @@ def run_partition(part, tier, seed):
     prev = None
     if part[0] == "aba":
         reps = aba_representatives(part[1])
-        for a in reps:
-            for b in reps:
-                if a is b:
-                    continue
-                case = ["aba", a, b]
-                acc.case(case, nontrivial=True, key=repr(case))
-                try:
-                    v = run_aba(a, b)
-                except Exception:
-                    import traceback
-                    v = [("harness_error/aba", traceback.format_exc()[-600:])]
-                for kk, w in v:
-                    acc.violation(kk, w, case)
-                acc.outcome((repr(case), tuple(x for x, _ in v)))
-        acc.add("aba_pairs", len(reps) * (len(reps) - 1))
+        if part[2] >= len(reps):
+            return acc
+        a = reps[part[2]]
+        others = [b for b in reps if b is not a]
+        case = ["aba", a, others]
+        acc.case(case, nontrivial=True, key=repr(case[:2]) + str(len(others)))
+        try:
+            v = run_aba_star(a, others)
+        except Exception:
+            import traceback
+            v = [("harness_error/aba", traceback.format_exc()[-600:])]
+        for kk, w in v:
+            acc.violation(kk, w, case)
+        acc.outcome((repr(a), tuple(x for x, _ in v)))
+        acc.add("aba_pairs", len(others))
+        acc.evaluations += len(others)
         return acc
     for case in gen(part, tier):
         obs = []
